@@ -8,6 +8,7 @@ import (
 	"regexp"
 	"strconv"
 	"strings"
+	"time"
 	"unicode"
 	"unicode/utf8"
 
@@ -42,6 +43,9 @@ func textChars(s string) []int {
 	}
 	return r
 }
+
+// hangCount counts parses abandoned by the watchdog; after three the driver stops early (see Ctx.emit)
+var hangCount int
 
 var diagRe = regexp.MustCompile(`(?s)^Ln (\d+), Col (\d+): (.*)$`)
 
@@ -106,9 +110,30 @@ func projMsgs(ms []*ast.DataMessage) []interface{} {
 func parseEvent(text string) J {
 	var msgs []*ast.DataMessage
 	var errs, warns []string
-	panicked, pmsg := try(func() { msgs, errs, warns = sml.Parse(text) })
+	// the parse runs under a watchdog: a call that does not come back (deadlocked on the token channel, or
+	// looping) is recorded with outcome "hang"; its goroutine is abandoned
+	var panicked bool
+	var pmsg string
+	done := make(chan bool, 1)
+	go func() {
+		panicked, pmsg = try(func() { msgs, errs, warns = sml.Parse(text) })
+		done <- true
+	}()
+	limit := 10*time.Second + time.Duration(len(text)/50000)*time.Second
+	hung := false
+	select {
+	case <-done:
+	case <-time.After(limit):
+		hung = true
+		hangCount++
+		msgs, errs, warns = nil, nil, nil
+	}
 	ev := J{"text": textChars(text), "bytelen": len(text), "outcome": "returned", "msgs": []interface{}{}, "errs": []interface{}{},
 		"warns": []interface{}{}, "floats": floatOracle(text)}
+	if hung {
+		ev["outcome"] = "hang"
+		return ev
+	}
 	if panicked {
 		ev["outcome"] = "panic"
 		ev["panicmsg"] = pmsg
@@ -152,13 +177,13 @@ func init() {
 
 // vocabulary of the SML grammar plus hostile fragments
 var soupFrags = []string{
-	"S1F1", "s2f3", "S127F255", "S128F1", "S1F256", "S99999999999999999999F1", "S0F0", " W", " [W]", " w", " H->E", " H<-E", " H<->E", " h->e",
+	"S1F1", "s2f3", "S127F255", "S128F1", "S1F256", "S128F256", "S999F999", "S99999999999999999999F1", "S99999999999999999999F99999999999999999999", "S0F0", " W", " [W]", " w", " H->E", " H<-E", " H<->E", " h->e",
 	" Name", " x.y", ".", ".", "\n", "\r\n", " ", "\t", "<", ">", "<L", "<L[2]", "<A", "<B", "<BOOLEAN", "<F4", "<F8", "<I1", "<I2", "<I4", "<I8",
 	"<U1", "<U2", "<U4", "<U8", "<a", "<boolean", " [3]", " [1..2]", " [..4]", " [2..]", " [ 1 .. 2 ]", " [99999999999999999999]", " [0]",
 	" \"abc\"", " \"\"", " \"a b\"", " \"a\\b\"", " \"x//y\"", " 0x41", " 65", " 128", " T", " F", " t", " true", " var", " v1[0]", " v1[0][1]", " _x",
 	" ...", " ...[0]", " ...[7]", " 1", " -1", " +1", " 0", " 255", " 256", " 0xFF", " 0b101", " 0o17", " 017", " 1.5", " -2e3", " 1e400", " .5",
 	" 9223372036854775807", " 9223372036854775808", " -9223372036854775808", " 18446744073709551615", " 18446744073709551616", " 12345678901234567890123",
-	" // comment", " // c \r\n", "//x\n", " 1_0", " 0x", " 1e", " +", " -", " 0b2", " 42abc", "é", "\u2003", "\u00a0", "\u0085", "\v", "\f", "\xff", "\xc3",
+	" // comment", " // c \r\n", "//x\n", " 1_0", " 0x", " 1e", " +", " -", " 0b2", " 42abc", " 0b102", " 0o78", " 0x1G", " 1.5.5", " . .", " . . .", " ..", " <A 321>", " <A 256>", "é", "\u2003", "\u00a0", "\u0085", "\v", "\f", "\xff", "\xc3",
 	" \"é\"", " \"\xff\"", " \"unclosed", " \"line\nbreak\"", " \"\nx\"", " [", " [x]", " ]", " @", " #", " W<", " S1F1<", "<L<A \"x\">>", "<L v ... >",
 }
 
@@ -175,7 +200,11 @@ func (g *Gen) plausible() string {
 	var sb strings.Builder
 	nm := 1 + g.pick(3)
 	for m := 0; m < nm; m++ {
-		fmt.Fprintf(&sb, "S%dF%d", g.pick(130), g.pick(258))
+		if g.pick(40) == 0 {
+			fmt.Fprintf(&sb, "S%dF%d", 128+g.pick(900), 256+g.pick(900))
+		} else {
+			fmt.Fprintf(&sb, "S%dF%d", g.pick(130), g.pick(258))
+		}
 		sb.WriteString([]string{"", " W", " [W]", " w"}[g.pick(4)])
 		sb.WriteString([]string{" H->E", " H<-E", " H<->E", "", " h<->e"}[g.pick(5)])
 		sb.WriteString([]string{"", " Name", " n.1", " <"}[g.pick(4)])
@@ -193,7 +222,8 @@ var intLits = []string{"0", "1", "-1", "+1", "127", "128", "-128", "-129", "255"
 	"2147483647", "2147483648", "-2147483648", "-2147483649", "4294967295", "4294967296", "9223372036854775807", "9223372036854775808",
 	"-9223372036854775808", "-9223372036854775809", "18446744073709551615", "18446744073709551616", "0x7F", "0X80", "0xff", "0x100", "0xFFFF",
 	"0x10000", "0xFFFFFFFF", "0x100000000", "0x7FFFFFFFFFFFFFFF", "0x8000000000000000", "0xFFFFFFFFFFFFFFFF", "0x10000000000000000", "-0x80", "-0x81",
-	"0b1111111", "0B10000000", "0b11111111", "0b100000000", "0o177", "0O200", "0o377", "0o400", "017", "010", "08", "-0", "+0", "00"}
+	"0b1111111", "0B10000000", "0b11111111", "0b100000000", "0o177", "0O200", "0o377", "0o400", "017", "010", "08", "-0", "+0", "00",
+	"0b102", "0b12", "0B1012", "0o78", "0O178", "-0b1019", "0x1G", "0xfg", "1_0", "256", "321", "511", "0x141", "0b100000001"}
 var floatLits = []string{"0", "1", "-1", "1.5", "-2.25", ".5", "5.", "1e3", "1E-3", "-1.5e+2", "3.4028235e38", "3.4028236e38", "1e39", "-1e39", "1e-46",
 	"1.7976931348623157e308", "1.8e308", "1e400", "4.9e-324", "1e-400", "0.1", "16777217", "0x10", "0b1", "1e", "1.e2", "+.5e1"}
 
